@@ -7,7 +7,7 @@ From Coq Require Import List String Ascii Bool ZArith.
 From Helm Require Import Values.Tree Chart.Paths Chart.Archive Chart.Files Chart.Save Chart.Load Gen.Limits
   Chart.Wf Chart.LoadProofs Chart.AgreeProofs Chart.RecProofs Chart.Examples15
   Chart.Ignore Chart.Utf8 Chart.Match Chart.MatchProofs Chart.IgnoreProofs
-  Chart.Wf2 Chart.Rt2Proofs Chart.Examples15b Chart.OrderProofs Common.SortUniq Chart.SaveDir Chart.DirProofs Chart.Examples15c.
+  Chart.Wf2 Chart.Rt2Proofs Chart.Examples15b Chart.OrderProofs Common.SortUniq Chart.SaveDir Chart.DirProofs Chart.Examples15c Gen.IgnoreConsts.
 Import ListNotations.
 Local Open Scope string_scope.
 
@@ -525,3 +525,23 @@ Theorem C15_lock_last_wins :
   (exists st', load_loop md_merge lock_dec parse_values st [g; f] = inr st' /\ ls_lock st' = la).
 Proof. exact lock_last_wins_names. Qed.
 Print Assumptions C15_lock_last_wins.
+
+(* ---------- translator: the constants of pkg/ignore/rules.go ---------- *)
+(* read from the source on every run (hx gen-tables -> Gen/IgnoreConsts.v): the rule AddDefaults
+   installs, the literals of parseRule's Contains / HasPrefix / HasSuffix checks and the name of its
+   filepath.Match probe are the ones the model uses -- the model's parse_ignore appends exactly the
+   rules of AddDefaults, and its probe is the probe of the source *)
+Theorem C15_ignore_constants :
+  (ignore_default_rules = ["templates/.?*"] /\ ignore_contains_checks = ["**"; "/"] /\
+   ignore_match_probes = ["abc"] /\ ignore_prefix_checks = ["#"; "!"; "/"] /\ ignore_suffix_checks = ["/"]) /\
+  (forall (pe : string -> bool) (text : option string),
+     parse_ignore pe text =
+     match parse_lines pe (match text with Some t => ignore_lines t | None => [] end),
+           map (parse_rule pe) ignore_default_rules with
+     | Some ps, [Some (Some d)] => Some (ps ++ [d])%list
+     | Some ps, [Some None] => Some ps
+     | _, _ => None
+     end) /\
+  (forall p, gmatch_err p = existsb (fun n => mres_eqb (gmatch p n) MBad) ignore_match_probes).
+Proof. exact ignore_constants. Qed.
+Print Assumptions C15_ignore_constants.
